@@ -1,4 +1,6 @@
 import Properties.C10
+import Properties.Full
 #print axioms Hive.C10.runInv
 #print axioms Hive.C10.access_on_enter
 #print axioms Hive.C10.reachable
+#print axioms Hive.Full.C10
